@@ -87,10 +87,20 @@ fn check_trunc(rep: &mut Report, model: &mut Model, ops: &[Op], b: &Built, rng: 
         let r = linear(&t, &cfg, &names, rng);
         let m = model.call(json!({"cmd":"linear.run","stream":hx(&t[9..]),"chosen":names.iter().map(|n| hx(n.as_bytes())).collect::<Vec<_>>()}));
         rep.traces_validated += 1;
-        // the footer's first byte is the low byte of the file count: with ≥ 2 files it is not a
-        // block type the parser accepts, so success is impossible unless the marker was reached
+        // The footer is glued behind the cut (the reader cannot be opened without it), so the parser
+        // goes on into footer bytes.  Success is impossible -- whatever the footer holds -- in two
+        // situations only: (a) the cut is at a block boundary and the footer's first byte (low byte of
+        // the file count) is not a block type; (b) the cut is inside the payload of a block whose
+        // header is complete and the missing part is longer than everything glued behind.  Elsewhere
+        // (a length field completed by footer bytes, a 0xFE in the footer met at a block position) the
+        // outcome depends on the footer bytes and only the comparison with the model applies.
+        let ranges = crate::c08::block_ranges(&bytes[9..]);
+        let glued = bytes.len() - (eoad + 1);
         let first = t.get(cut).copied().unwrap_or(0);
-        let decisive = !matches!(first, 0x00 | 0x01 | 0xFE | 0xFF);
+        let at_boundary = cut == 9 || ranges.iter().any(|(_, e, _)| 9 + e == cut);
+        let in_payload = ranges.iter().any(|(s0, e, ty)| { let (s0, e) = (9 + s0, 9 + e); let hdr = match ty { 0x00 | 0x01 => 17, 0xFF => 9, _ => 1 }; cut >= s0 + hdr && cut < e && e - cut > glued });
+        let decisive = (at_boundary && !matches!(first, 0x00 | 0x01 | 0xFE | 0xFF)) || in_payload;
+        rep.count(if decisive { "truncated:decisive" } else { "truncated:model-only" });
         if let Ok(_) = &r {
             if decisive {
                 rep.violation("oracle", "C12/trunc", json!({"what":"truncation-not-noticed"}), &format!("linear extraction succeeds although the end-of-data marker is missing (cut at {cut})"), case());
